@@ -440,7 +440,13 @@ func groupConstraintsIntoIntervals(constraints []constraint) ([]interval, error)
 	// Excludes are handled separately in the contains function, not as intervals
 
 	// Handle range constraints (lower/upper bounds)
-	if len(lowerBounds) > 0 || len(upperBounds) > 0 {
+	// VERS spec: in a valid range the comparators, sorted by version, alternate
+	// between lower and upper bounds: an optional leading upper bound, then
+	// lower/upper pairs, then an optional trailing lower bound. Each of them
+	// denotes one interval and the range is their union.
+	if bounds := boundConstraints(constraints); alternate(bounds) {
+		intervals = append(intervals, pairAlternatingBounds(bounds)...)
+	} else if len(lowerBounds) > 0 || len(upperBounds) > 0 {
 		// For VERS spec compliance, we need to analyze the constraint pattern:
 		// 1. If there are multiple bounds of the same type, take the most restrictive
 		// 2. If there's a mix creating logical intervals, pair them appropriately
@@ -522,6 +528,68 @@ func groupConstraintsIntoIntervals(constraints []constraint) ([]interval, error)
 	}
 
 	return intervals, nil
+}
+
+// boundConstraints returns the lower and upper bound constraints in their
+// (sorted) order, leaving out "=" and "!=".
+func boundConstraints(constraints []constraint) []constraint {
+	var bounds []constraint
+	for _, c := range constraints {
+		if isLowerBound(c) || isUpperBound(c) {
+			bounds = append(bounds, c)
+		}
+	}
+	return bounds
+}
+
+func isLowerBound(c constraint) bool {
+	return c.operator == ">=" || c.operator == ">"
+}
+
+func isUpperBound(c constraint) bool {
+	return c.operator == "<=" || c.operator == "<"
+}
+
+// alternate reports whether there is at least one bound and lower and upper
+// bounds strictly alternate.
+func alternate(bounds []constraint) bool {
+	if len(bounds) == 0 {
+		return false
+	}
+	for i := 1; i < len(bounds); i++ {
+		if isLowerBound(bounds[i-1]) == isLowerBound(bounds[i]) {
+			return false
+		}
+	}
+	return true
+}
+
+// pairAlternatingBounds turns alternating bounds into intervals:
+// "<1|>=2|<3|>4" is (-inf,1) [2,3) (4,+inf).
+func pairAlternatingBounds(bounds []constraint) []interval {
+	var intervals []interval
+	i := 0
+	if isUpperBound(bounds[0]) {
+		// A leading upper bound has no lower bound
+		intervals = append(intervals, interval{
+			upper:          bounds[0].version,
+			upperInclusive: bounds[0].operator == "<=",
+		})
+		i = 1
+	}
+	for ; i < len(bounds); i += 2 {
+		current := interval{
+			lower:          bounds[i].version,
+			lowerInclusive: bounds[i].operator == ">=",
+		}
+		// A trailing lower bound has no upper bound
+		if i+1 < len(bounds) {
+			current.upper = bounds[i+1].version
+			current.upperInclusive = bounds[i+1].operator == "<="
+		}
+		intervals = append(intervals, current)
+	}
+	return intervals
 }
 
 // shouldMergeConstraints determines whether constraints should be merged (most restrictive)
